@@ -115,9 +115,10 @@ public:
   vector<vector<double>> log;     // every evaluation point
   vector<Box> box;
 
-  PolyFn(const Poly& p, const vector<Box>& bx, const vector<double>& x0) : AbstractParametrizable(""), P(p), box(bx) {
+  PolyFn(const Poly& p, const vector<Box>& bx, const vector<double>& x0, const vector<double>& prec) : AbstractParametrizable(""), P(p), box(bx) {
     for (int j = 0; j < P.n; ++j)
-      addParameter_(new Parameter(nm(j), x0[j], bx[j].has ? make_shared<IntervalConstraint>(bx[j].lo, bx[j].hi, bx[j].il, bx[j].iu) : nullptr));
+      addParameter_(new Parameter(nm(j), x0[j], bx[j].has ? make_shared<IntervalConstraint>(bx[j].lo, bx[j].hi, bx[j].il, bx[j].iu) : nullptr,
+                                  static_cast<size_t>(j) < prec.size() ? prec[static_cast<size_t>(j)] : 0.));
     d1_.assign(P.n, 0); d2_.assign(P.n * P.n, 0);
     fireParameterChanged(getParameters());
   }
@@ -172,11 +173,15 @@ struct Cfg {
   bool cross = false;
   Poly P;
   vector<Box> box;
+  vector<double> prec;   // Parameter precision of the wrapped function's parameters (empty / 0: the default)
+  double precOf(int j) const { return static_cast<size_t>(j) < prec.size() ? prec[static_cast<size_t>(j)] : 0.; }
   string show() const {
     ostringstream os;
     os << SCHEME[scheme] << "(" << KIND[kind] << ") h=" << vf::dec(h) << (setH ? "" : "(default)") << " f=" << P.show() << " box{";
     for (int j = 0; j < P.n; ++j) os << (j ? "," : "") << ::show(box[j]);
-    os << "} derivate(";
+    os << "}";
+    for (int j = 0; j < P.n; ++j) if (precOf(j) > 0) os << " precision(x" << j << ")=" << vf::dec(precOf(j));
+    os << " derivate(";
     for (size_t q = 0; q < sel.size(); ++q) os << (q ? "," : "") << "x" << sel[q];
     os << ")" << (cross ? " cross" : "");
     return os.str();
@@ -188,12 +193,13 @@ struct Sys {
   shared_ptr<PolyFn> fn;
   unique_ptr<AbstractNumericalDerivative> w;
   vector<double> cur;   // model: the requested point
+  vector<double> listPrec;   // precision carried by the parameter the latest update handed over for each variable (0: plain list)
   bool updated = false;         // some update went through the wrapper (its getValue() is a cache of the last update)
   bool analyticStale = false;   // known finding C12-noprobe-stale-analytic applies to the state the last update left
   bool selected(int j) const { return find(cfg.sel.begin(), cfg.sel.end(), j) != cfg.sel.end(); }
 
-  Sys(const Cfg& c, const vector<double>& x0) : cfg(c), cur(x0) {
-    fn = make_shared<PolyFn>(c.P, c.box, x0);
+  Sys(const Cfg& c, const vector<double>& x0) : cfg(c), cur(x0), listPrec(x0.size(), 0.) {
+    fn = make_shared<PolyFn>(c.P, c.box, x0, c.prec);
     shared_ptr<FunctionInterface> f0 = fn; shared_ptr<FirstOrderDerivable> f1 = fn; shared_ptr<SecondOrderDerivable> f2 = fn;
     switch (c.scheme) {
       case 0: w.reset(c.kind == 0 ? new TwoPointsNumericalDerivative(f0) : new TwoPointsNumericalDerivative(f1)); break;
